@@ -25,7 +25,7 @@ def load_json(path, default):
 
 
 def finish(prop, a, results, units, world, t0, seed, run_harness, extra=None):
-    outdir = os.path.join(VERIF, "out", prop)
+    outdir = os.path.join(os.environ.get("VERIF_OUT") or os.path.join(VERIF, "out"), prop)
     baseline = load_json(os.path.join(VERIF, "baseline_obligations.json"), {})
     known = load_json(os.path.join(VERIF, "known_findings.json"), {"findings": []})
     open_known = {(k["property"], k["obligation"]): k for k in known.get("findings", []) if k.get("status") == "open"}
@@ -175,7 +175,8 @@ def finish(prop, a, results, units, world, t0, seed, run_harness, extra=None):
                     "rule": pinfo.get("rule", "see bounded[]")})
     ev = {"property_id": prop, "tier": a.tier, "seed": seed, "level": level, "coverage": cov,
           "assumptions": trusted, "wall_s": round(time.time() - t0, 2), "violations": nviol}
-    json.dump(ev, open(os.path.join(VERIF, "evidence", "%s.json" % prop), "w"), indent=1, default=repr)
+    if not os.environ.get("VERIF_NO_EVIDENCE"):
+        json.dump(ev, open(os.path.join(VERIF, "evidence", "%s.json" % prop), "w"), indent=1, default=repr)
     print("%s: %d obligations, %d discharged, %d violations, %d undecided, %d known findings; %d functions; %.1fs"
           % (prop, n_ob, n_dis, nviol, len(undecided), len(known_lines), len(funcs), time.time() - t0))
     return code
